@@ -89,6 +89,19 @@ def run(ctx):
             continue
         if not np.allclose(g1, want, rtol=1e-9, atol=1e-9) or not np.allclose(g2, [want, want], rtol=1e-9, atol=1e-9):
             ctx.violation('central difference is not grad + h^2 * cubic coefficient (second order)', 'got %s expected %s' % (g1.tolist(), want.tolist()), c)
+        # the same polynomial restricted to its first one / two variables (a function of ONE variable has a final axis of length 1)
+        for nd in (1, 2):
+            rest = np.array(c['x'][nd:], dtype=float)
+            fr_ = lambda X, nd=nd, rest=rest: f(np.concatenate([np.asarray(X, dtype=float), np.broadcast_to(rest, np.shape(X)[:-1] + (3 - nd,))], axis=-1))
+            try:
+                gd = central_difference(fr_, np.array(c['x'][:nd], dtype=float), shift=h)
+                gd2 = central_difference(fr_, np.array([c['x'][:nd], c['x'][:nd]], dtype=float), shift=h)
+            except Exception as e:
+                ctx.violation('central_difference raised %s for a function of %d variable(s)' % (excname(e), nd), repr(e)[:200], c)
+                continue
+            if np.shape(gd) != (nd,) or not np.allclose(gd, want[:nd], rtol=1e-9, atol=1e-9) or not np.allclose(gd2, [want[:nd], want[:nd]], rtol=1e-9, atol=1e-9):
+                ctx.violation('central difference of a function of %d variable(s) is not grad + h^2 * cubic coefficient' % nd,
+                              'got %s expected %s' % (np.asarray(gd).tolist(), want[:nd].tolist()), c)
         ctx.traces += 1
     ctx.sample({'kind': 'S->C gradient case', **rg.cases[3]})
     # the same expectations on arrays of points with two leading axes (square and rectangular grids of DIFFERENT points)
@@ -152,8 +165,11 @@ def run(ctx):
     runs = [r + (1.0,) for r in runs]
     # stiff members of the family (energy scaled by 250): the stable time step is far below the path's default one, so every phase
     # of relax() has to use the step it was given
+    runs += [(1.0, 5, False, -1.0), (2.0, 7, True, -1.0)]          # stiff = -1 marks: short string, tolerance=0 (never stop early), tight acceptance
     runs += [(1.0, 10, True, 250.0)] if quick else [(1.0, 10, True, 250.0), (2.0, 16, False, 400.0), (0.5, 10, False, 250.0)]
     for ri, (c2, nimg, bent, stiff) in enumerate(runs):
+        zero_tol = stiff < 0
+        stiff = abs(stiff)
         def energy(X, c2=c2, stiff=stiff):
             X = np.asarray(X)
             return stiff * ((X[..., 0] ** 2 - 1) ** 2 + c2 * X[..., 1] ** 2)
@@ -164,7 +180,7 @@ def run(ctx):
         coord = start + np.outer(t, end - start)
         if bent:
             coord[:, 1] += 0.6 * np.sin(np.pi * t)
-        tag = {'c': c2, 'nimg': nimg, 'bent': bent, 'stiff': stiff, 'options': 'default' if ri % 2 == 0 else 'explicit'}
+        tag = {'c': c2, 'nimg': nimg, 'bent': bent, 'stiff': stiff, 'tolerance0': zero_tol, 'options': 'default' if ri % 2 == 0 else 'explicit'}
         try:
             if ri % 2 == 0:
                 path = mep.create_path(coord, energy, style='ISM')
@@ -173,18 +189,18 @@ def run(ctx):
             e0, e1 = [], []
             cur = path
             for blk in range(6):
-                cur = cur.relax(relaxsteps=40 if blk < 3 else 300, climbsteps=0, timestep=dt1, verbose=False)
+                cur = cur.relax(relaxsteps=40 if blk < 3 else 300, climbsteps=0, timestep=dt1, verbose=False, **({'tolerance': 0.0} if zero_tol else {}))
                 en = cur.energy() / stiff
                 e0.append(_cl(round(en[0] * S)))
                 e1.append(_cl(round(en[-1] * S)))
             if ri % 2:
                 fin = cur.relax(relaxsteps=0, climbsteps=1500, timestep=dt2, verbose=False)
             else:   # relaxation and climbing requested in ONE call; the relaxation phase ends by reaching its tolerance
-                fin = cur.relax(relaxsteps=2000, climbsteps=1500, timestep=dt2, verbose=False)
+                fin = cur.relax(relaxsteps=2000, climbsteps=1500 if not zero_tol else 6000, timestep=dt2, verbose=False, **({'tolerance': 0} if zero_tol else {}))
             en = fin.energy() / stiff
             it = int(np.argmax(en))
             g = (fin.grad_energy(fin.coord[it:it + 1])[0] if hasattr(fin, 'grad_energy') else np.zeros(2)) / stiff
-            recs.append({'ev': 'relax', 'tag': tag, 's': S, 'tol': S // 500, 'climb': True,
+            recs.append({'ev': 'relax', 'tag': tag, 's': S, 'tol': S // 500 if not zero_tol else S // 50000, 'climb': True,
                          'end0': [_cl(round(x * S)) for x in fin.coord[0]], 'end1': [_cl(round(x * S)) for x in fin.coord[-1]],
                          'e0hist': e0, 'e1hist': e1, 'top': [_cl(round(x * S)) for x in fin.coord[it]], 'etop': _cl(round(en[it] * S)),
                          'gtop': _cl(round(float(np.linalg.norm(g)) * S)), 'arc': [_cl(round(x * S)) for x in fin.arccoord]})
